@@ -1,12 +1,231 @@
-//! C12 — not built yet.
-use crate::runner::{Outcome, Summary};
-use crate::Ctx;
-use serde_json::Value;
+//! C12 — expression simplification preserves the expression's value.
+//!
+//! replay: TLC cases {tree, arm, out, cmp} of spec/mc/MC_ExprSimplify.tla (numbers are elements of
+//!         GF(1009); the literal table is `c03::literal_of_gf`) are built through the public
+//!         constructors, simplified with `Expression::simplify` and `into_simplified`, and judged by the
+//!         statement itself: same value at 4 assignments where the original is finite (DESIGN.md §2.2
+//!         filter), no new variable or memory reference, never `pi`.  Closed trees also go through
+//!         `Gate::to_unitary` (parameter folding).  The model's result is compared only as MODEL-DIVERGENCE.
+//! drive:  seeded random trees up to depth 6.  "field" histories (variables, addresses, rationals, + - * /,
+//!         prefixes) are recorded with every literal mapped into GF(1009) and TLC judges the real output
+//!         with ExprSimplify!Contract; "numeric" histories (all operators, functions, pi, complex literals)
+//!         are judged in floating point here and TLC judges the names / never-pi part.
 
-pub fn replay(_ctx: &Ctx, _case: &Value) -> Outcome {
-    panic!("C12: replay not implemented")
+use super::c03::{self, Alphabet, Judged};
+use crate::runner::{Outcome, Summary, Violation};
+use crate::util;
+use crate::Ctx;
+use num_complex::Complex64;
+use quil_rs::expression::Expression;
+use quil_rs::instruction::{Gate, Qubit};
+use rand::Rng;
+use serde_json::{json, Value};
+use std::collections::BTreeSet;
+
+/// structural comparison of the real result (numbers as GF images, -1 = not an exact rational) with the
+/// model's result
+fn matches_model(real: &Value, model: &Value) -> bool {
+    let t = real["t"].as_str();
+    if t != model["t"].as_str() {
+        return false;
+    }
+    match t.unwrap_or("") {
+        "num" => real["n"].as_i64() == Some(-1) || real["n"] == model["n"],
+        "pi" => true,
+        "var" => real["v"] == model["v"],
+        "addr" => real["m"] == model["m"],
+        "neg" | "pos" => matches_model(&real["e"], &model["e"]),
+        "fn" => real["f"] == model["f"] && matches_model(&real["e"], &model["e"]),
+        "inf" => {
+            real["op"] == model["op"] && matches_model(&real["l"], &model["l"]) && matches_model(&real["r"], &model["r"])
+        }
+        _ => false,
+    }
 }
 
-pub fn drive(_ctx: &Ctx) -> Summary {
-    panic!("C12: drive not implemented")
+/// The statement of C12 on (e, s).  `stream` selects the assignment stream.
+fn contract(ctx: &Ctx, e: &Expression, s: &Expression, how: &str, o: &mut Outcome) {
+    let pts = c03::points(ctx.seed, 12, &[e], 3);
+    for p in &pts {
+        o.sub_evaluations += 1;
+        match c03::judge_opts(e, s, p, true) {
+            Judged::Same => o.count("points_judged"),
+            Judged::NotJudged(why) => o.count(&format!("not_judged_{}", why.replace(' ', "_"))),
+            Judged::Differs { original, other } => {
+                o.violate(
+                    Violation::new(
+                        &format!("evaluate({how}(e))"),
+                        c03::cplx_json(Some(original)),
+                        c03::cplx_json(other),
+                    )
+                    .note(format!(
+                        "simplified form {}; assignment {}",
+                        quil_rs::quil::Quil::to_quil_or_debug(s),
+                        c03::point_json(p)
+                    )),
+                );
+                break;
+            }
+        }
+    }
+    let (mut ve, mut vs) = (BTreeSet::new(), BTreeSet::new());
+    c03::variables(e, &mut ve);
+    c03::variables(s, &mut vs);
+    if !vs.is_subset(&ve) {
+        o.violate(Violation::new(&format!("variables of {how}(e)"), json!(ve), json!(vs)));
+    }
+    let (mut ae, mut as_) = (vec![], vec![]);
+    c03::addresses(e, &mut ae);
+    c03::addresses(s, &mut as_);
+    let ae: BTreeSet<_> = ae.into_iter().collect();
+    let as_: BTreeSet<_> = as_.into_iter().collect();
+    if !as_.is_subset(&ae) {
+        o.violate(Violation::new(&format!("memory references of {how}(e)"), json!(ae), json!(as_)));
+    }
+    if c03::has_node(s, &|x| matches!(x, Expression::PiConstant())) {
+        o.violate(Violation::new(&format!("{how}(e) contains pi"), json!("no PiConstant"), c03::to_abs(s)));
+    }
+}
+
+/// consumer named in the statement: Gate::to_unitary folds its parameter with into_simplified
+fn unitary_consumer(e: &Expression, o: &mut Outcome) {
+    let (mut vs, mut ads) = (BTreeSet::new(), vec![]);
+    c03::variables(e, &mut vs);
+    c03::addresses(e, &mut ads);
+    if !vs.is_empty() || !ads.is_empty() {
+        return;
+    }
+    let p = c03::Point { vars: Default::default(), mem: Default::default() };
+    // the same exclusions as for direct evaluation (finite, not branch-cut sensitive)
+    if !matches!(c03::judge_opts(e, e, &p, true), Judged::Same) {
+        return;
+    }
+    let v = c03::eval(e, &p).unwrap();
+    let want = v.cos() + Complex64::new(0.0, 1.0) * v.sin();
+    if !want.re.is_finite() || !want.im.is_finite() {
+        return;
+    }
+    let mut gate = Gate::new("PHASE", vec![e.clone()], vec![Qubit::Fixed(0)], vec![]).expect("PHASE gate");
+    o.count("unitary_consumer");
+    match gate.to_unitary(1) {
+        Ok(m) => {
+            let got = m[[1, 1]];
+            // cis amplifies an absolute error of its argument by |cis|: compare with the scale of v
+            if !c03::close(want, got, want.norm() * (1.0 + v.norm())) {
+                o.violate(Violation::new(
+                    "Gate::to_unitary parameter folding",
+                    c03::cplx_json(Some(want)),
+                    c03::cplx_json(Some(got)),
+                ));
+            }
+        }
+        // not folding a closed parameter to a number is not a change of value: informational
+        Err(err) => o.diverge(format!("Gate::to_unitary does not fold a closed parameter: {err:?}")),
+    }
+}
+
+fn check_tree(ctx: &Ctx, e: &Expression, consumers: bool, o: &mut Outcome) -> Expression {
+    let s1 = e.clone().into_simplified();
+    let mut s2 = e.clone();
+    s2.simplify();
+    contract(ctx, e, &s1, "into_simplified", o);
+    if s2 != s1 {
+        contract(ctx, e, &s2, "simplify", o);
+        o.diverge("simplify and into_simplified return different expressions".to_string());
+    }
+    if consumers {
+        unitary_consumer(e, o);
+    }
+    o.nontrivial = s1 != *e;
+    s1
+}
+
+pub fn replay(ctx: &Ctx, case: &Value) -> Outcome {
+    let tree = if let Some(h) = case.get("history") { h[0]["tree"].clone() } else { case["tree"].clone() };
+    let e = c03::build(&tree);
+    // the abstraction function must be the identity on the alphabet (GF form for TLC cases and field
+    // histories, literal form for numeric histories)
+    let gf_form = tree.to_string().contains("\"n\":") || !tree.to_string().contains("\"re\":");
+    let back = c03::to_abs_opts(&e, gf_form);
+    if back != tree {
+        panic!("abstraction mismatch: {back} vs {tree}");
+    }
+    let mut o = Outcome::ok(false);
+    let s = check_tree(ctx, &e, true, &mut o);
+    if let Some(arm) = case.get("arm").and_then(|a| a.as_str()) {
+        o.count(&format!("arm_{arm}"));
+    }
+    if !o.violations.is_empty() {
+        return o;
+    }
+    if case.get("cmp").and_then(|c| c.as_bool()) == Some(true) {
+        let real = c03::to_abs_opts(&s, true);
+        if !matches_model(&real, &case["out"]) {
+            o.diverge(format!("simplified form {} differs from the model's {} for {}", real, case["out"], tree));
+        } else {
+            o.count("model_result_matches");
+        }
+    }
+    o
+}
+
+// ------------------------------------------------------------------------------------------- drive
+
+const FIELD_LITERALS: &[(f64, f64)] =
+    &[(0.0, 0.0), (1.0, 0.0), (2.0, 0.0), (3.0, 0.0), (-1.0, 0.0), (0.5, 0.0), (1.5, 0.0), (-2.0, 0.0), (4.0, 0.0)];
+/// magnitudes in {0} ∪ [0.5, 10]: the simplifier's absolute tolerances never decide a case
+const NUMERIC_LITERALS: &[(f64, f64)] = &[
+    (0.0, 0.0), (1.0, 0.0), (2.0, 0.0), (3.0, 0.0), (-1.0, 0.0), (0.5, 0.0), (1.5, 0.0), (-2.0, 0.0), (0.0, 1.0),
+    (0.0, 2.0), (1.0, 2.0), (1.0, -2.0), (-1.5, -0.5), (7.25, 0.0),
+];
+
+pub fn drive(ctx: &Ctx) -> Summary {
+    let n = ctx.arg_u64("n", 100);
+    let max_depth = ctx.arg_u64("depth", 6) as usize;
+    let path = ctx.arg_str("out").expect("--out");
+    let mut out = std::io::BufWriter::new(std::fs::File::create(path).expect("create trace"));
+    let mut rng = util::rng(ctx.seed, 1212);
+    let field = Alphabet {
+        literals: FIELD_LITERALS,
+        vars: &["x", "y", "z"],
+        addrs: &[("m", 0), ("m", 1), ("n", 0)],
+        ops: &["+", "-", "*", "/"],
+        fns: &[],
+        pi: false,
+        pos: true,
+    };
+    let numeric = Alphabet {
+        literals: NUMERIC_LITERALS,
+        vars: &["x", "y", "z"],
+        addrs: &[("m", 0), ("m", 1), ("n", 0)],
+        ops: c03::OPS,
+        fns: c03::FUNCTIONS,
+        pi: true,
+        pos: true,
+    };
+    let mut sum = Summary::default();
+    let mut seen = std::collections::HashSet::new();
+    for h in 0..n {
+        let is_field = h % 3 != 2;
+        let d = 2 + (rng.gen_range(0..max_depth.max(2) - 1));
+        let lit_tree = c03::random_tree(&mut rng, if is_field { &field } else { &numeric }, d);
+        let e = c03::build(&lit_tree);
+        let mut o = Outcome::ok(false);
+        let s = check_tree(ctx, &e, false, &mut o);
+        // field histories: every literal of input and output must have an exact image in GF(1009)
+        let exact = is_field && c03::gf_exact(&e) && c03::gf_exact(&s);
+        let (tree, res) = if exact {
+            (c03::to_abs_opts(&e, true), c03::to_abs_opts(&s, true))
+        } else {
+            (c03::to_abs(&e), c03::to_abs(&s))
+        };
+        o.count(if exact { "histories_judged_in_gf" } else { "histories_judged_in_f64_only" });
+        util::emit(&mut out, &json!({"ev": "reset", "tree": tree, "exact": exact, "small": c03::depth(&e) <= 3 && exact}));
+        util::emit(&mut out, &json!({"ev": "simplify", "out": res}));
+        util::emit(&mut out, &json!({"ev": "done"}));
+        o.count_n("events", 3);
+        let distinct = seen.insert(tree.to_string());
+        sum.absorb(&json!({"tree": tree}), &o, distinct);
+    }
+    sum
 }
